@@ -80,6 +80,23 @@ theorem sort_spec (sp : Params) :
 theorem parse_serialize_id (l : Params) : parse (serialize l) = l :=
   parse_serialize table_escapes_specials l
 
+theorem hex_kernels_fin : ∀ n : Fin 256,
+    (Generated.ishex (UInt8.ofNat n.val) == isHex (UInt8.ofNat n.val) &&
+     Generated.unhex (UInt8.ofNat n.val) == unhex (UInt8.ofNat n.val)) = true := by decide +kernel
+
+/-- **the hex kernels are the source's**: `ishex` and `unhex` as regenerated from url/escape.go on this run (the
+tagless switches translated to `UInt8` functions by verif-extract) agree with the model's on every byte, so
+`unescape_clauses`, `unescape_escape_id` and `parse_serialize_id` speak about the digits the code accepts now. -/
+theorem hex_kernels_as_in_source (c : UInt8) : Generated.ishex c = isHex c ∧ Generated.unhex c = unhex c := by
+  have h := hex_kernels_fin ⟨c.toNat, c.toNat_lt⟩
+  simpa [UInt8.ofNat_toNat] using h
+
+/-- **the order `sort` uses is the URL standard's**: names are compared as sequences of UTF-16 code units, so a
+character beyond U+FFFF (lead surrogate D800..DBFF) sorts before U+E000..U+FFFF although its code point is larger -/
+theorem sort_order_is_code_units :
+    ltName [0xF0, 0x90, 0x80, 0x80] [0xEF, 0xBF, 0xBF] = true ∧ ltBytes [0xF0, 0x90, 0x80, 0x80] [0xEF, 0xBF, 0xBF] = false ∧
+    u16key [0xF0, 0x9F, 0x98, 0x80] = [0xD83D, 0xDE00] := by decide +kernel
+
 /-- non-vacuity: a list with duplicates, empty and reserved names -/
 example : delete [⟨[97], [49]⟩, ⟨[], [43]⟩, ⟨[97], [50]⟩] [97] (some [49]) = [⟨[], [43]⟩, ⟨[97], [50]⟩] ∧
     serialize [⟨[97, 43], [38, 61]⟩] = "a%2B=%26%3D".toUTF8.toList := by decide +kernel
